@@ -494,6 +494,9 @@ class IndicatorBox(BasePenalty):
             elif w[j] == self.alpha:
                 # distance of - grad_j to  [0, +infty]
                 subdiff_dist[idx] = max(0, grad[idx])
+            elif w[j] < 0 or w[j] > self.alpha:
+                # outside the box the subdifferential is empty
+                subdiff_dist[idx] = np.inf
             else:
                 # distance of - grad_j to 0
                 subdiff_dist[idx] = np.abs(grad[idx])
